@@ -1,5 +1,10 @@
 package linter
 
+import (
+	"unicode"
+	"unicode/utf8"
+)
+
 // CodeMask classifies every byte of sql: mask[i] is true when byte i is plain
 // code and false when it lies inside a string literal ('...' with a doubled
 // quote for a quote - a backslash is not an escape here, exactly as in the
@@ -74,11 +79,7 @@ func CodeMask(sql string) []bool {
 			i = j
 		case c == '$':
 			// $tag$ ... $tag$ (tag may be empty); anything else is code
-			j := i + 1
-			for j < n && (sql[j] == '_' || sql[j] >= 'a' && sql[j] <= 'z' || sql[j] >= 'A' && sql[j] <= 'Z' || (j > i+1 && sql[j] >= '0' && sql[j] <= '9')) {
-				j++
-			}
-			if j < n && sql[j] == '$' {
+			if j := dollarTagEnd(sql, i); j >= 0 {
 				tag := sql[i : j+1]
 				if tags == nil {
 					tags = indexDollarTags(sql)
@@ -107,8 +108,26 @@ type dollarTags struct {
 	cursor map[string]int   // per tag: first entry of at[tag] not yet passed
 }
 
-func isDollarTagChar(c byte, first bool) bool {
-	return c == '_' || c >= 'a' && c <= 'z' || c >= 'A' && c <= 'Z' || (!first && c >= '0' && c <= '9')
+// dollarTagEnd returns the index of the '$' that closes the tag opened by the
+// '$' at i, or -1 when what follows is not a tag. A tag is empty or an
+// identifier as the tokenizer reads it: a letter of any script or '_', then
+// letters, digits, '_', combining marks and connector punctuation.
+func dollarTagEnd(sql string, i int) int {
+	first := true
+	for j := i + 1; j < len(sql); {
+		r, size := utf8.DecodeRuneInString(sql[j:])
+		switch {
+		case r == '$':
+			return j
+		case r == '_' || unicode.IsLetter(r):
+		case !first && (unicode.IsDigit(r) || unicode.Is(unicode.Mn, r) || unicode.Is(unicode.Mc, r) || unicode.Is(unicode.Pc, r)):
+		default:
+			return -1
+		}
+		first = false
+		j += size
+	}
+	return -1
 }
 
 func indexDollarTags(sql string) *dollarTags {
@@ -117,11 +136,7 @@ func indexDollarTags(sql string) *dollarTags {
 		if sql[i] != '$' {
 			continue
 		}
-		j := i + 1
-		for j < len(sql) && isDollarTagChar(sql[j], j == i+1) {
-			j++
-		}
-		if j < len(sql) && sql[j] == '$' {
+		if j := dollarTagEnd(sql, i); j >= 0 {
 			tag := sql[i : j+1]
 			t.at[tag] = append(t.at[tag], i)
 		}
